@@ -181,14 +181,74 @@ def run(prog, rep, tier):
         if v[0] == 'S' and v[3] is not None and all(A.is_const(x) for x in v[3]):
             return bytes(x[1] for x in v[3]).decode('utf8', 'replace')
         return None
-    for i, it in enumerate(sm[3]):
-        f = fields(it, st_t)
-        row = {k: cint(f[k]) for k in ('start', 's1', 's2', 'offset', 'end')}
-        row['prefix'], row['alphabet'] = cstr(f['prefix']), cstr(f['alphabet'])
+    # stride rows, read semantically: stride_reg is run for an arbitrary address; at the call that prints a row's
+    # prefix (Argument::new_display::<String>) the state holds the prefix as a constant string and the interval of
+    # the addresses the row's guard admits.  Field names of StrideMapping are not relied upon (seed C14-s8 kept
+    # `start` under another name with another meaning).
+    HEX = T('o', ('p', 'hexid'))
+    Es = runner.make_engine(prog, K=64)
+    sem = {}          # (lo, hi) of the admitted addresses -> {'prefix', 'alphabet', 'nth': [index terms]}
+    order = []
+
+    def strval(E_, st, v):
+        v = st.resolve(v)
+        d = 0
+        while v != A.BOT and v[0] == 'R' and d < 3:
+            v = st.resolve(models.deref(E_, st, v))
+            d += 1
+        return cstr(E_.expand(v)) if v != A.BOT else None
+
+    def shook(E_, frame, bb, t, sts, c):
+        if '::stride_reg' not in frame.body['name'] or frame.depth > 2:
+            return
+        it_ = c.get('item')
+        nm_ = c.get('name') or ''
+        if not ((it_ == 'new_display' and nm_.endswith('String>')) or it_ == 'nth' or (it_ == 'chars' and 'str' in nm_)):
+            return
+        for st in sts:
+            iv = E_.ival(st, HEX)
+            key = (iv[0], iv[1]) if iv else None
+            if key not in sem:
+                sem[key] = {'prefix': set(), 'alphabet': set(), 'nth': []}
+                order.append(key)
+            if it_ == 'new_display':
+                sem[key]['prefix'].add(strval(E_, st, E_.operand(st, frame, t['args'][0])))
+            elif it_ == 'chars':
+                sem[key]['alphabet'].add(strval(E_, st, E_.operand(st, frame, t['args'][0])))
+            else:
+                v = st.resolve(E_.operand(st, frame, t['args'][1]))
+                if v != A.BOT and v[0] == 'R':
+                    v = models.deref(E_, st, v)
+                v = E_.scalar(st, v)
+                sem[key]['nth'].append(v[4] if v[0] == 'I' else None)
+    Es.call_hook = shook
+    runner.run_entry(Es, fns['stride_reg'], [Es.reg(mk_int(0, (1 << 32) - 1, 0, HEX))], quiet=True)
+    import terms as _terms
+    rep.check(len(order) == len(sm[3]), 'Q2-rows', 'stride-rows#one-answering-range-per-row', f_tail['file'],
+              'STRIDE_MAPPINGS has %d rows but stride_reg answers in %d distinct address ranges' % (len(sm[3]), len(order)))
+    for i, key in enumerate(order):
+        ent = sem[key]
+        row = {'start': key[0] if key else None, 'end': key[1] if key else None,
+               'prefix': next(iter(ent['prefix'])) if len(ent['prefix']) == 1 else None,
+               'alphabet': next(iter(ent['alphabet'])) if len(ent['alphabet']) == 1 else None}
+        # strides and offset from the index terms X/s1, (X%s1)/s2, (X%s1)%s2 with X = address + c
+        s1 = s2 = off = None
+        for tm in ent['nth']:
+            if tm is not None and tm[0] == 'Div' and tm[2][0] == 'c' and tm[1][0] != 'Rem':
+                s1 = tm[2][1]
+                try:
+                    a_, c_, n_ = _terms.affine_over(tm[1])
+                    if a_ == 1 and row['start'] is not None:
+                        off = row['start'] + c_
+                except _terms.NotNormal:
+                    pass
+            elif tm is not None and tm[0] == 'Div' and tm[2][0] == 'c' and tm[1][0] == 'Rem':
+                s2 = tm[2][1]
+        row.update({'s1': s1, 's2': s2, 'offset': off})
         ok = None not in row.values()
-        rep.check(ok, 'Q2-rows', 'stride-row-%d#constants' % i, f_tail['file'], 'row %d of STRIDE_MAPPINGS does not evaluate to constants: %s' % (i, row), nontrivial=True,
+        rep.check(ok, 'Q2-rows', 'stride-row-%d#constants' % i, f_tail['file'], 'row %d of STRIDE_MAPPINGS: prefix, alphabet, answering range or strides not constant: %s' % (i, row), nontrivial=True,
                   sample={'row': i, **row} if i in (0, 5) else None)
-        if ok:
+        if row['start'] is not None and row['end'] is not None and row['prefix'] is not None:
             rows.append(('stride', row['start'], row['end'], row['prefix'], row))
     for i, it in enumerate(nm[3]):
         f = fields(it, nu_t)
@@ -340,7 +400,7 @@ def run(prog, rep, tier):
                   sample={'offset': A.show_term(x), 's1': fm.get('i1', (0, 0, None))[2], 's2': fm.get('i2', (0, 0, 0, None))[3]} if nrow_ok <= 1 else None)
     for kind, lo, hi, prefix, row in rows:
         if kind == 'stride':
-            al = row['alphabet']
+            al = row['alphabet'] or ''
             rep.check(len(set(al)) == len(al), 'Q4-stride-form', 'alphabet[%s@%#x]#distinct' % (prefix, lo), f_tail['file'], 'alphabet %r repeats a letter' % al, nontrivial=False)
     seen = collect('numeric_reg', 'to_string', 0)
     rep.floor('numeric registrations printed in numeric_reg', len(seen), len([r for r in rows if r[0] == 'numeric']))
@@ -427,6 +487,8 @@ def run(prog, rep, tier):
         for r in st_rows:
             row = r[4]
             al = row['alphabet']
+            if None in (al, row['offset'], row['s1'], row['s2']):
+                continue            # reported by Q2-rows
             for off in range(row['offset'], row['offset'] + (row['end'] - row['start']) + 1):
                 i1, rem = divmod(off, row['s1'])
                 i2, i3 = divmod(rem, row['s2'])
